@@ -479,6 +479,12 @@ func (g *generator) Assign(
 		return builder.ToAssignable(assignTo)(g.Build(ctx, sourceID, source, target, errPath))
 	}
 
+	if assignTo.Update && source.Struct && target.Struct && !g.hasDeclared(ctx, source, target) {
+		// The source is applied on top of the existing target value. Calling a
+		// generated method would replace that value as a whole.
+		return g.assignNoLookup(ctx, assignTo, sourceID, source, target, errPath)
+	}
+
 	stmt, nextID, err := g.callExisting(ctx, sourceID, source, target, errPath)
 	if nextID != nil || err != nil {
 		return builder.ToAssignable(assignTo)(stmt, nextID, err)
@@ -509,6 +515,17 @@ func (g generator) callExisting(
 		return nil, nil, builder.NewError(err.Error())
 	}
 	return nil, nil, nil
+}
+
+// hasDeclared reports whether the user provided the conversion for the given
+// types: an extend function or a declared converter method.
+func (g *generator) hasDeclared(ctx *builder.MethodContext, source, target *xtype.Type) bool {
+	signature := xtype.SignatureOf(source, target)
+	if def, err := g.extend.Get(signature, ctx.AvailableContext); def != nil || err != nil {
+		return true
+	}
+	genMethod, err := g.lookup.Get(signature, ctx.AvailableContext)
+	return err != nil || (genMethod != nil && genMethod.Explicit)
 }
 
 func (g *generator) shouldCreateSubMethod(ctx *builder.MethodContext, source, target *xtype.Type) bool {
